@@ -139,6 +139,7 @@ Ev == [ev |-> "wrap", tag |-> "MC", text |-> text, o |-> o,
 \* the machine models the code as it is, including the two recorded (unrepaired) findings K1 / K2 of
 \* known_findings.json; their specific reasons are therefore not violations of the *model*
 KnownReasons == {"a paragraph that fits was not returned as one unchanged line (escape sequence with an embedded space)",
+                 "a paragraph that fits was not returned as one unchanged line (escape sequence containing a hyphen, hyphen splitter)",
                  "a first-fit line is wider than the width although it is not a single unbreakable fragment (indent alone wider than the width, zero-width fragments after it)"}
 AllOk(cs) == \A x \in 1..Len(cs) : cs[x].ok \/ cs[x].r \in KnownReasons \/ (PrintT(<<"FAILED", cs[x].p, cs[x].c, cs[x].r>>) /\ FALSE)
 PropWrap == pc = "done" => AllOk(Judge_wrap(Ev))
